@@ -153,6 +153,7 @@ struct St {
     frames: u64,
     beam_cases: u64,
     beam_judged: u64,
+    aged_frames: u64,
     paths: HashSet<String>,
     sample: Vec<J>,
 }
@@ -528,7 +529,8 @@ fn foreign_bank_case(ctx: &Ctx, rng: &mut Rng, st: &mut St, case: u64) {
 }
 
 /// flash: phase uniform within a frame and flipping exactly every 16 frames
-fn flash_run(ctx: &Ctx, rng: &mut Rng, is128: bool, st: &mut St) {
+/// `aged`: the machine has displayed some 65,500 frames (22 minutes) before the judged run starts
+fn flash_run(ctx: &Ctx, rng: &mut Rng, is128: bool, st: &mut St, aged: bool) {
     let mut m = Machine::new(Cfg { sound: false, ..Cfg::of(is128) });
     let mut scr = rng.bytes(6912);
     for (i, b) in scr.iter_mut().enumerate().skip(6144) {
@@ -546,6 +548,16 @@ fn flash_run(ctx: &Ctx, rng: &mut Rng, is128: bool, st: &mut St) {
     quiet(&mut m);
     ldir_install(&mut m, &scr, 0x4000);
     quiet(&mut m);
+    if aged {
+        // frames pass quickly: the frame clock is put just before each frame's end (hook)
+        let fl = m.frame_len();
+        let n = 65_300 + rng.below(400);
+        for _ in 0..n {
+            m.set_clock(fl - 4);
+            m.run_frames(1);
+        }
+        st.aged_frames += n;
+    }
     m.run_frames(2 + rng.below(20) as usize);
     let mut phases = vec![];
     // somewhere in the run the host reloads the very same machine state from a snapshot (SZX with
@@ -588,7 +600,7 @@ fn flash_run(ctx: &Ctx, rng: &mut Rng, is128: bool, st: &mut St) {
     runs.push(len);
     let inner_ok = runs.len() >= 3 && runs[1..runs.len() - 1].iter().all(|r| *r == 16) && runs[0] <= 16 && *runs.last().unwrap() <= 16;
     if !inner_ok {
-        ctx.violation("canvas:flash:period", &format!("FLASH phase run lengths over 56 frames are {:?}; the phase must flip exactly every 16 frames{}", runs, reload_at.map(|x| format!(" (the same state was reloaded from a snapshot before frame {})", x)).unwrap_or_default()), jobj! {"is128"=>is128,"runs"=>format!("{:?}", runs)});
+        ctx.violation(if aged { "canvas:flash:period-after-65k-frames" } else { "canvas:flash:period" }, &format!("FLASH phase run lengths over 56 frames are {:?}; the phase must flip exactly every 16 frames{}", runs, reload_at.map(|x| format!(" (the same state was reloaded from a snapshot before frame {})", x)).unwrap_or_default()), jobj! {"is128"=>is128,"runs"=>format!("{:?}", runs)});
     }
 }
 
@@ -669,7 +681,7 @@ pub fn run(ctx: &Ctx) -> Evidence {
     let n_beam = ctx.scale(600, 20_000) as usize;
     let shards = 64usize;
     let res = par_map(ctx.jobs(), shards, |sh| {
-        let mut st = St { screens: 0, frames: 0, beam_cases: 0, beam_judged: 0, paths: HashSet::new(), sample: vec![] };
+        let mut st = St { screens: 0, frames: 0, beam_cases: 0, beam_judged: 0, aged_frames: 0, paths: HashSet::new(), sample: vec![] };
         for i in 0..(n / shards).max(1) {
             let case = (sh * (n / shards).max(1) + i) as u64;
             let mut rng = Rng::fork(ctx.seed ^ 0xC08, case);
@@ -683,7 +695,11 @@ pub fn run(ctx: &Ctx) -> Evidence {
         }
         if sh < 16 {
             let mut rng = Rng::fork(ctx.seed ^ 0xC08F, sh as u64);
-            flash_run(ctx, &mut rng, sh % 2 == 1, &mut st);
+            flash_run(ctx, &mut rng, sh % 2 == 1, &mut st, false);
+        }
+        if (16..if ctx.quick() { 18 } else { 32 }).contains(&sh) {
+            let mut rng = Rng::fork(ctx.seed ^ 0xC08_A6ED, sh as u64);
+            flash_run(ctx, &mut rng, sh % 2 == 1, &mut st, true);
         }
         for i in 0..(n / shards / 8).max(2) {
             let case = (sh * (n / shards / 8).max(2) + i) as u64;
@@ -700,6 +716,7 @@ pub fn run(ctx: &Ctx) -> Evidence {
         ev.add_num("frames_rendered", r.frames);
         ev.add_num("beam_cases", r.beam_cases);
         ev.add_num("beam_cases_judged", r.beam_judged);
+        ev.add_num("frames_passed_before_aged_flash_runs", r.aged_frames);
         paths.extend(r.paths);
         for s in r.sample {
             ev.sample(s);
